@@ -498,3 +498,9 @@ m('get-uses-reopened-file-after-error', 'R14k', 'cache/disk/disk.go',
 		log.Println(err)
 	}
 ''')
+m('validator-treedigest-nil-accepted', 'R14a', 'utils/validate/action_result.go',
+  '''		if d.TreeDigest == nil {
+			return fmt.Errorf("nil tree digest pointer for output directory: %q", d.Path)
+		}
+''',
+  '''''')
